@@ -16,15 +16,23 @@ import (
 
 func init() { register("fft", fftCmd) }
 
+func ctorLen(j fftJob) int {
+	if j.Ctor > 0 {
+		return j.Ctor
+	}
+	return j.N
+}
+
 type fftJob struct {
-	ID   int     `json:"id"`
-	Kind string  `json:"kind"` // new | vec | impulse | tone | inv | wronglen
-	N    int     `json:"N"`
-	X    []int   `json:"x"`
-	J    int     `json:"j"`
-	Len  int     `json:"len"`
-	Seed int64   `json:"seed"`
-	Ks   []int   `json:"ks"`
+	ID   int    `json:"id"`
+	Kind string `json:"kind"` // new | vec | impulse | tone | inv | wronglen
+	N    int    `json:"N"`
+	X    []int  `json:"x"`
+	J    int    `json:"j"`
+	Len  int    `json:"len"`
+	Seed int64  `json:"seed"`
+	Ks   []int  `json:"ks"`
+	Ctor int    `json:"ctor"` // > 0: the transformer is requested for this length (any length whose largest power of two below it is N)
 }
 
 func fftCmd(job []byte, out *Out) error {
@@ -66,10 +74,13 @@ func fftCmd(job []byte, out *Out) error {
 				res["re"], res["im"] = re, im
 				res["samebuf"] = &y[0] == &x[0]
 			case "impulse", "tone":
-				f, err := fft.New(j.N)
+				f, err := fft.New(ctorLen(j))
 				if err != nil {
 					res["err"] = true
 					return
+				}
+				if f.N != j.N {
+					panic(fmt.Sprintf("New(%d) built a transformer of length %d, expected %d", ctorLen(j), f.N, j.N))
 				}
 				N := j.N
 				x := make([]complex128, N)
@@ -105,10 +116,13 @@ func fftCmd(job []byte, out *Out) error {
 				}
 				res["samples"] = samples
 			case "inv":
-				f, err := fft.New(j.N)
+				f, err := fft.New(ctorLen(j))
 				if err != nil {
 					res["err"] = true
 					return
+				}
+				if f.N != j.N {
+					panic(fmt.Sprintf("New(%d) built a transformer of length %d, expected %d", ctorLen(j), f.N, j.N))
 				}
 				rng := rand.New(rand.NewSource(j.Seed))
 				x := make([]complex128, j.N)
